@@ -389,6 +389,22 @@ def canonicalize(repo: Repo, chk: Check, rule: str = "C10.canon") -> None:
                    "a level is skipped under a condition other than `bound == 1 and not innermost`", s.fact_texts)
     ins = [s for s in fl.calls("insert", "append") if s.reachable]  # collected outermost-first (insert(0, ..)) or innermost-first (append)
     first_keep = [s for s in ins if has_fact(s, ["len($x) == 0", "not $x", "($x[-1] if $x else None) is None", "($x[0] if $x else None) is None"])]
+    if not first_keep:
+        # written without a test of its own: every condition on the way to the insert is of the form `<nothing collected> or ..`
+        # (`if kept and <drop>: continue`, `if kept and <merge>: .. else: kept.append(stride)`), i.e. with an empty list the insert is reached
+        def _empty_implies(fa, lst: str) -> bool:
+            if fa.kind != "atom":
+                return False
+            e_ = norm.primary(fa.expr)
+            ds = e_.values if isinstance(e_, ast.BoolOp) and isinstance(e_.op, ast.Or) else [e_]
+            return any(norm.any_match(["len($x) == 0", "not $x", "($x[-1] if $x else None) is None", "($x[0] if $x else None) is None"],
+                                      d_, {"x": ast.Name(lst, ast.Load())}) is not None for d_ in ds)
+
+        for s in ins:
+            recv = s.node.func.value if isinstance(s.node.func, ast.Attribute) else None
+            if isinstance(recv, ast.Name) and s.loops and len(s.state.alts) == 1 and all(_empty_implies(fa, recv.id) for fa in s.facts) \
+                    and s.node.args and ast.unparse(s.node.args[-1]) == lv:
+                first_keep.append(s)
     chk.result(bool(first_keep), rule, f"{f.key}:innermost-inserted", first_keep[0].where() if first_keep else f.where,
                "the innermost level is inserted unconditionally (before any merge/drop test)",
                "the innermost level is no longer kept unconditionally")
@@ -444,8 +460,23 @@ def lccb(repo: Repo, chk: Check, rule: str = "C10.lccb") -> None:
     chk.result(sel, rule, f"{f.key}:continues-extent", f.where, "candidates are selected by step == running extent",
                "the next stride is no longer selected by `step == current extent`: the block is not contiguous")
     upd = [s for s in fl.stmts(ast.Assign) if s.reachable and isinstance(s.node.targets[0], ast.Name) and s.node.targets[0].id == cur and s.loops]
-    ok = any(norm.any_match(["$s.step * $s.bound", "$s.bound * $s.step"], s.node.value) is not None for s in upd)
-    chk.result(ok, rule, f"{f.key}:extent-update", upd[0].where() if upd else f.where, "running extent := step * bound of the appended stride")
+    def _leaves(e: ast.expr) -> list[ast.expr]:
+        e = norm.primary(e)  # type: ignore[assignment]
+        return _leaves(e.body) + _leaves(e.orelse) if isinstance(e, ast.IfExp) else [e]
+
+    good = bad = 0
+    for s in upd:
+        for leaf in _leaves(s.node.value):
+            if isinstance(leaf, ast.Constant) and leaf.value is None:
+                continue  # a dynamic stride ends the search: nothing has step None
+            if norm.any_match(["$s.step * $s.bound", "$s.bound * $s.step"], leaf) is not None \
+                    or norm.any_match(["$s.step * $s.bound", "$s.bound * $s.step"], norm.primary(s.expand(leaf))) is not None:
+                good += 1
+            elif any(isinstance(x, ast.Call) for x in ast.walk(leaf)):
+                raise AnalysisError(f"{s.where()}: running extent set to `{ast.unparse(leaf)[:80]}`, a call this rule does not see through")
+            else:
+                bad += 1
+    chk.result(good > 0 and bad == 0, rule, f"{f.key}:extent-update", upd[0].where() if upd else f.where, "running extent := step * bound of the appended stride")
 
 
 # --------------------------------------------------------------------------- dense = onto AND one-to-one
